@@ -453,6 +453,12 @@ fn judge_egress(scn: &Scenario, tr: &Trace) -> Judged {
                 j.fail("C18-R1", format!("packet with records of service '{}' sent at t={} on interface {} ({}), which has had no {} address for more than {} ms (interface check every {} s)", svc.instance, x.t, ifx, fam, fam, W, IPCHECK_S));
                 return j;
             }
+            // Within one check period after a change of the table the daemon still works with the old one: which interface
+            // a packet leaves on is then decided by the system from an address that may have moved. Not judged further.
+            if tabs.iter().any(|(tt, _)| *tt > 0 && *tt <= x.t && x.t - *tt <= W) {
+                j.abstained += 1;
+                continue;
+            }
             // enabled?
             let any_on = entries.iter().any(|(n, ip, _)| enabled(&sels, x.step, n, ifx, ip));
             let grace = entries.iter().any(|(n, ip, _)| touched_in_step(&sels, x.step, n, ifx, ip));
@@ -665,10 +671,14 @@ impl Property for C18 {
         }
     }
     fn judge(&self, scn: &Scenario, tr: &Trace) -> Judged {
-        if scn.family == "ingress" {
-            judge_ingress(scn, tr)
-        } else {
-            judge_egress(scn, tr)
+        let mut j = if scn.family == "ingress" { judge_ingress(scn, tr) } else { judge_egress(scn, tr) };
+        // runs in which a send failed because its source address had just vanished are tagged (known finding: a service
+        // whose announcement fails that way stays silent on the interface)
+        if tr.stats.seam_faults[3] > 0 {
+            for v in j.violations.iter_mut().filter(|v| v.rule == "C18-R5") {
+                v.detail = format!("[a send failed on an address that had just vanished] {}", v.detail);
+            }
         }
+        j
     }
 }
